@@ -326,7 +326,7 @@ pub struct LimParams {
     pub limit_sets: Vec<(usize, usize, usize)>,
 }
 
-const QUERIES: [(&str, bool); 14] = [
+const QUERIES: [(&str, bool); 18] = [
     ("MATCH (a), (b) RETURN a.v AS x, b.v AS y", false),
     ("UNWIND range(1, 40) AS x RETURN x", false),
     ("MATCH (a)-[*1..3]->(b) RETURN a.v AS x, b.v AS y", false),
@@ -341,6 +341,10 @@ const QUERIES: [(&str, bool); 14] = [
     ("MATCH (a), (b) WITH DISTINCT a.v AS x RETURN x ORDER BY x", true),
     ("UNWIND range(1, 20) AS x UNWIND range(1, 5) AS y RETURN DISTINCT x", false),
     ("MATCH (a)-->(b) RETURN a.v AS x, collect(b.v) AS ys", false),
+    ("UNWIND range(1, 40) AS x RETURN x SKIP 3", false),
+    ("MATCH (a), (b) RETURN a.v AS x, b.v AS y SKIP 2 LIMIT 5", false),
+    ("UNWIND range(1, 40) AS x RETURN count(*) AS c", false),
+    ("UNWIND range(1, 30) AS x WITH x SKIP 1 RETURN x ORDER BY x", true),
 ];
 
 fn render_rows(rows: &[ndb_query::Row], ordered: bool) -> Vec<String> {
@@ -577,7 +581,7 @@ impl Check for LimitsCheck {
         res
     }
     fn rule(&self) -> String {
-        "Per case a generated graph (3-9 nodes, random relationships) and one of 14 query shapes with large intermediates (cartesian MATCH, UNWIND of ranges, variable-length expansion, DISTINCT, ORDER BY, aggregation, UNION / UNION ALL, OPTIONAL MATCH, collect). The query runs (1) unlimited, (2) under 6 PRNG-chosen (row, collection, apply) limit sets, (3) under a soft timeout whose deadline the simulated monotonic clock crosses at the i-th clock read, i swept over every read the query performs (strided above 150). Oracle: every outcome is either exactly the unlimited rows (as multiset, or as sequence under ORDER BY) or an error of the resource-limit kind; after the first read that can observe the deadline at most 64 further clock reads happen before the error surfaces. evaluations = limited executions; distinct_nontrivial = distinct (query, graph size, limit set / deadline position) points.".into()
+        "Per case a generated graph (3-9 nodes, random relationships) and one of 18 query shapes with large intermediates (cartesian MATCH, UNWIND of ranges, variable-length expansion, DISTINCT, ORDER BY, SKIP / LIMIT, aggregation (grouped and ungrouped), UNION / UNION ALL, OPTIONAL MATCH, collect). The query runs (1) unlimited, (2) under 6 PRNG-chosen (row, collection, apply) limit sets, (3) under a soft timeout whose deadline the simulated monotonic clock crosses at the i-th clock read, i swept over every read the query performs (strided above 150). Oracle: every outcome is either exactly the unlimited rows (as multiset, or as sequence under ORDER BY) or an error of the resource-limit kind; after the first read that can observe the deadline at most 64 further clock reads happen before the error surfaces. evaluations = limited executions; distinct_nontrivial = distinct (query, graph size, limit set / deadline position) points.".into()
     }
     fn nontrivial_set(&self) -> &'static str {
         "limit_points"
